@@ -8,8 +8,9 @@ SEC = 1_000_000_000
 MS = 1_000_000
 H = lambda s: (s if isinstance(s, bytes) else s.encode()).hex()
 
-TARGET_POOL = [b"ta:80", b"tb:80", b"tc:80", b"td:80", b"te:80", b"tf:80", b"tg:80", b"th:80", b"ti:80", b"tj:80",
-               b"tk:80", b"tl:80", b"tm:80", b"tn:80", b"to:80", b"tp:80"]
+TARGET_POOL = [b"ta:80", b"tb:80", b"tc:80", b"td:80", b"te:80", b"tf:80", b"tg:80", b"th:80"] + [b"u%d:80" % i for i in range(600)]
+# (long enough that a generator cycling through it does not reuse a name within one scenario: the probe script of a target
+#  is keyed by its name, and a reused name would make an installed healthy target inherit a failing script)
 POINTS = ["req:routed", "req:gate-passed", "req:lb-picked", "req:claimed", "deploy:found", "deploy:lb-created", "deploy:healthy",
           "deploy:slot-updated", "deploy:installed", "drain:marked", "probe:applied", "pause:gate-set"]
 # snapshot:* yields are NOT armed by the random generator: a goroutine parked there holds the snapshot mutex and a
@@ -37,7 +38,7 @@ class Gen:
         rnd = self.rnd
         out = []
         for _ in range(n):
-            name = TARGET_POOL[self.next_target % len(TARGET_POOL)]
+            name = b"t%d:80" % self.next_target        # never reused: the probe script of a target belongs to its name
             self.next_target += 1
             r = rnd.random()
             if not healthy:
@@ -160,7 +161,7 @@ class Gen:
                 continue
             acc += p["flap"]
             if r < acc and self.next_target:
-                name = TARGET_POOL[rnd.randrange(min(self.next_target, len(TARGET_POOL)))]
+                name = b"t%d:80" % rnd.randrange(self.next_target)
                 self.steps.append({"op": "probe_script", "targets": [{"name": H(name), "probes": rnd.choice([["refused"], ["ok"], ["status:500", "ok"], ["refused", "refused", "ok"]])}]})
                 continue
             self.sleep()
